@@ -37,7 +37,8 @@ CHECKS = {
     "C14": {
         "level": "exploration",
         # reference counts are the mechanism behind "removing one user leaves the others intact"
-        "classes": ["C14", "C06:string-refcount", "C19:refcount-wrapped"],
+        # (the model is storage-agnostic: a replica that disagrees with it has made the way a string is stored visible)
+        "classes": ["C14", "C06:string-refcount", "C19:refcount-wrapped", "C04"],
         "rule": HIST_RULE + "; every plan is executed on two replicas (strings offered linked vs through copied kinds) "
                 "and every public accessor is compared after every operation",
         "budget_s": {"quick": 70, "thorough": 900},
